@@ -258,6 +258,14 @@ package p2p
 //@ field Subscriber.verifier(ctx, h)
 //@   maypanic
 
+// the validator goroutines wait on verifierSema and then call s.verifier without taking verifierMu:
+// the field must hold the registered verifier before the channel is closed
+//@ func (*Subscriber).SetVerifier(s, verifier)
+//@   props C11
+//@   modifies Subscriber.verifier
+//@   before close [C11] verifier-stored-before-signal: s.verifier == verifier
+//@   ensures [C11] stored: result == nil ==> s.verifier == verifier
+
 //@ func (*Subscriber).extractHeader(s, msg)
 //@   props C11
 //@   maypanic
